@@ -70,6 +70,10 @@ TOKENS = [
     ("up", "/.."),
     ("up2", "/../.."),
     ("SLASH_REL_PREFIX_SIBLING", "/rootx/cfg1"),
+    # percent-encoded traversals (an id must never be decoded a second time on its way to the file system)
+    ("ENC_UP", "%2e%2e%2f"),
+    ("ENC_REL_PREFIX_SIBLING", "rootx%2fcfg1"),
+    ("ENC2_UP", "%252e%252e%252f"),
 ]
 
 FIXED = "Could not load the {ids} guardrails configuration. An internal error has occurred."
@@ -105,6 +109,23 @@ class FakeRails:
             await streaming_handler.push_chunk(text[3:])
             await streaming_handler.push_chunk(None)
         return reply
+
+
+def make_store():
+    """MemoryStore with latency: `set` / `get` give control back to the event loop before they act (like a network
+    store); a reply that goes out before the thread is written shows as a lost write"""
+    from nemoguardrails.server.datastore.memory_store import MemoryStore
+
+    class SlowMemoryStore(MemoryStore):
+        async def set(self, key, value):
+            await asyncio.sleep(0.002)
+            await super().set(key, value)
+
+        async def get(self, key):
+            await asyncio.sleep(0)
+            return await super().get(key)
+
+    return SlowMemoryStore()
 
 
 # ------------------------------------------------------------------ world (scratch tree + patches)
@@ -154,7 +175,7 @@ class World:
 
         RailsConfig.from_path = classmethod(from_path)
         api.LLMRails = FakeRails
-        self.store = MemoryStore()
+        self.store = make_store()
         api.register_datastore(self.store)
         api.app.disable_chat_ui = True
         api.app.auto_reload = False
@@ -208,8 +229,7 @@ class World:
         del FakeRails.served_by[:]
 
     def fresh_store(self):
-        from nemoguardrails.server.datastore.memory_store import MemoryStore
-        self.store = MemoryStore()
+        self.store = make_store()
         self.api.register_datastore(self.store)
 
     def close(self):
@@ -490,13 +510,18 @@ def _ids_tokens(form, tup):
     return [names]
 
 
-def a_enumerate(k):
+# tokens that only take part in ids of <= 2 tokens in the quick tier (the thorough tier uses every token at every length)
+RARE_IN_QUICK = {"%2e", "%2f", "NUL", "space", "tilde", "fullwidth-dot", "fullwidth-slash", "lone-surrogate", "ENC_UP", "ENC_REL_PREFIX_SIBLING", "ENC2_UP"}
+
+
+def a_enumerate(k, reduced_long=False):
     """all token tuples of length <= k whose rendering is new (first tokenization wins)."""
     seen = set()
     out = []
     n = len(TOKENS)
     for ln in range(0, k + 1):
-        for tup in itertools.product(range(n), repeat=ln):
+        idx = range(n) if not (reduced_long and ln >= 3) else [i for i in range(n) if TOKENS[i][0] not in RARE_IN_QUICK]
+        for tup in itertools.product(idx, repeat=ln):
             s = _W.render(tup)
             if s in seen:
                 continue
@@ -507,7 +532,8 @@ def a_enumerate(k):
 
 def run_a(rep, tier, deadline):
     k = 3 if tier == "quick" else 4
-    tuples = a_enumerate(k)
+    tuples = a_enumerate(k, reduced_long=(tier == "quick"))
+    rep.set("A_tokens_only_in_short_ids", sorted(RARE_IN_QUICK) if tier == "quick" else [])
     rep.set("A_k_tokens", k)
     rep.set("A_token_set", [t[0] for t in TOKENS])
     rep.set("A_distinct_ids", len(tuples))
@@ -917,7 +943,7 @@ def run(rep, tier):
             "deliberate GuardrailsConfigurationError raise; it is counted (A_no_id_*), not judged",
             "part C: root with the directories a, b, c, a-b, b-c; every sequence of <= 2 (quick) / 3 (thorough) requests over C_id_lists with the "
             "rails cache kept between the requests of a sequence; oracle = the answer of a server that has seen no other request",
-            "part B: MemoryStore; thread ids T1/T2 (T1 is a prefix of T2), `context` on one request form, one streamed request form (`stream: true`, the fake instance pushes the reply in two chunks); store compared by "
+            "part B: MemoryStore whose set() yields to the event loop for 2 ms before it writes (write latency); thread ids T1/T2 (T1 is a prefix of T2), `context` on one request form, one streamed request form (`stream: true`, the fake instance pushes the reply in two chunks); store compared by "
             "content (key naming is free)",
         ]
         a_deadline = t0 + budget * 0.75
